@@ -7,5 +7,6 @@ mkdir -p $W
 cp -a /verif $W/verif
 git -C /repo worktree add -q -b wk-$n $W/repo HEAD || exit 2
 sed -i "s#path = \"/repo\"#path = \"$W/repo\"#" $W/verif/harness/Cargo.toml
+cp /repo/Cargo.lock $W/repo/Cargo.lock 2>/dev/null
 rm -f $W/verif/harness/Cargo.lock
 echo "$W ready"
